@@ -6,7 +6,7 @@
 From Coq Require Import List String Bool.
 From KV Require Import LockDiscipline LockDisciplineProofs.
 From KV.gen Require Import Locks.
-From KV.gen Require LockLeaks.
+From KV.gen Require LockLeaks NilChecks.
 Import ListNotations.
 
 Lemma C07_fields_protected : protectedb gen_accesses = true.
@@ -59,4 +59,10 @@ Definition row_eqb (a b : string * string * string * string) : bool :=
 
 Lemma C07_no_lock_left_on_exit :
   forallb (fun r => existsb (row_eqb r) known_lock_holders) LockLeaks.lock_leaks = true.
+Proof. vm_compute. reflexivity. Qed.
+
+(* results of look-up functions (nil = "not there") are compared with nil before any other use, in
+   every covered package (gen/NilChecks.v, gofacts/nilchecks.go): a nil dereference in a handler or
+   a background goroutine is a panic that ends the process *)
+Lemma C07_lookups_tested_before_use : NilChecks.nil_unchecked = [].
 Proof. vm_compute. reflexivity. Qed.
